@@ -140,9 +140,9 @@ func (e *Engine) report(prop, tier string, seed int, groups []*groupResult, miss
 		for _, l := range violLines {
 			fmt.Println(l)
 		}
-		if exit == 0 {
-			exit = 1
-		}
+		// a violated obligation is the primary finding: an unsatisfiable cover next to it (typically a consequence of
+		// the same change) does not turn the report into "broken check"
+		exit = 1
 	}
 	if total == 0 && exit == 0 {
 		fmt.Fprintln(os.Stderr, "govc: BROKEN CHECK: no obligations were generated for", prop)
